@@ -114,6 +114,39 @@ theorem getMeta_applyAll_other (s : Store) (ws : List SW) (k : String)
 theorem applyAll_snoc (s : Store) (ws : List SW) (w : SW) : s.applyAll (ws ++ [w]) = (s.applyAll ws).apply w := by
   simp [Store.applyAll]
 
+/-- after a loop that wrote at all, the persisted watermark is the one in memory -/
+theorem LoopInv.getMeta_last {d : Bool} {a0 : ANode} {items0 : List Item} {a : ANode} {rem : List Item} {ws : List SW}
+    {pre : List Item} (h : LoopInv d a0 items0 a rem ws pre)
+    (h1 : ws.getLast? = some (SW.setMeta (wmKey d) (le64 (wm d a)))) :
+    a.n.store.getMeta (wmKey d) = some (le64 (wm d a)) := by
+  obtain ⟨ws', rfl⟩ : ∃ ws', ws = ws' ++ [SW.setMeta (wmKey d) (le64 (wm d a))] := by
+    cases hws : ws.getLast? with
+    | none => rw [hws] at h1; simp at h1
+    | some x =>
+      have hne : ws ≠ [] := by intro e; rw [e] at hws; simp at hws
+      refine ⟨ws.dropLast, ?_⟩
+      have := List.dropLast_concat_getLast hne
+      rw [hws] at h1
+      have hx : ws.getLast hne = x := by
+        have := List.getLast?_eq_some_getLast hne
+        rw [hws] at this; simpa using this.symm
+      rw [← this, hx]; simp at h1; rw [h1]; simp
+  rw [h.store, applyAll_snoc]
+  simp [Store.apply, Store.getMeta]
+
+/-- the writes of a submission loop touch no other metadata key -/
+theorem LoopInv.getMeta_other {d : Bool} {a0 : ANode} {items0 : List Item} {a : ANode} {rem : List Item} {ws : List SW}
+    {pre : List Item} (h : LoopInv d a0 items0 a rem ws pre) (k : String) (hk : wmKey d ≠ k) :
+    a.n.store.getMeta k = a0.n.store.getMeta k := by
+  rw [h.store]
+  apply getMeta_applyAll_other
+  intro w hw k' v he
+  obtain ⟨v', hv, _⟩ := h.writes w hw
+  rw [hv] at he
+  have : wmKey d = k' := by
+    injection he
+  rw [← this]; exact hk
+
 theorem LoopInv.persisted {d : Bool} {a0 : ANode} {items0 : List Item} {a : ANode} {rem : List Item} {ws : List SW}
     {pre : List Item} (h : LoopInv d a0 items0 a rem ws pre) (hp : Persisted d a0) : Persisted d a := by
   rcases h.lastWrite with ⟨h1, h2⟩ | h1
@@ -121,37 +154,14 @@ theorem LoopInv.persisted {d : Bool} {a0 : ANode} {items0 : List Item} {a : ANod
     rw [h1] at hs
     unfold Persisted
     rw [hs, h2]; exact hp
-  · left
-    obtain ⟨ws', rfl⟩ : ∃ ws', ws = ws' ++ [SW.setMeta (wmKey d) (le64 (wm d a))] := by
-      cases hws : ws.getLast? with
-      | none => rw [hws] at h1; simp at h1
-      | some x =>
-        have hne : ws ≠ [] := by intro e; rw [e] at hws; simp at hws
-        refine ⟨ws.dropLast, ?_⟩
-        have := List.dropLast_concat_getLast hne
-        rw [hws] at h1
-        have hx : ws.getLast hne = x := by
-          have := List.getLast?_eq_some_getLast hne
-          rw [hws] at this; simpa using this.symm
-        rw [← this, hx]; simp at h1; rw [h1]; simp
-    rw [h.store, applyAll_snoc]
-    simp [Store.apply, Store.getMeta]
+  · exact Or.inl (h.getMeta_last h1)
 
 /-- the writes of a submission loop of one kind never touch the other kind's key -/
 theorem LoopInv.persisted_other {d : Bool} {a0 : ANode} {items0 : List Item} {a : ANode} {rem : List Item} {ws : List SW}
     {pre : List Item} (h : LoopInv d a0 items0 a rem ws pre) (hp : Persisted (!d) a0) : Persisted (!d) a := by
   have hk : wmKey d ≠ wmKey (!d) := by cases d <;> decide
-  have : a.n.store.getMeta (wmKey (!d)) = a0.n.store.getMeta (wmKey (!d)) := by
-    rw [h.store]
-    apply getMeta_applyAll_other
-    intro w hw k' v he
-    obtain ⟨v', hv, _⟩ := h.writes w hw
-    rw [hv] at he
-    have : wmKey d = k' := by
-      injection he
-    rw [← this]; exact hk
   unfold Persisted
-  rw [this, h.frame.otherWm]; exact hp
+  rw [h.getMeta_other _ hk, h.frame.otherWm]; exact hp
 
 /-! ### restart -/
 
@@ -319,5 +329,31 @@ theorem dataIter_wm_le (a : ANode) (script : List DAAns) (hok : DataOK a.n.store
     subst this
     have : dataHeight b = k := hh hne
     rw [e']; show dataHeight b ≤ _; omega
+
+/-- … for every node satisfying the producer's invariant, without a hypothesis on the data metadata: a committed block's
+data metadata, when present, carries the block's height (`Linked.metaOK`), and an item without metadata has height 0 -/
+theorem dataIter_wm_le_inv {c : Cfg} (a : ANode) (script : List DAAns) (hinv : Inv c a.n)
+    (hlow : c.initialHeight ≤ a.n.dataWm + 1) (hle : a.n.dataWm ≤ a.n.store.height) :
+    (dataIter a script).1.n.dataWm ≤ (dataIter a script).1.n.store.height := by
+  obtain ⟨items, rem, pre, hi, hmem⟩ := dataIter_inv a script
+  rw [hi.frame.height]
+  rcases hi.wmFrom with e | ⟨l, hl, e⟩
+  · have e' : (dataIter a script).1.n.dataWm = a.n.dataWm := e
+    omega
+  · have e' : (dataIter a script).1.n.dataWm = l.height := e
+    obtain ⟨k, b, k1, k2, hb, hne, rfl⟩ := hmem l (by rw [hi.split]; exact List.mem_append_left _ hl)
+    obtain ⟨b', hb', hl'⟩ := hinv.chain k (by omega) k2
+    rw [hb] at hb'
+    have : b = b' := by simpa using hb'
+    subst this
+    rw [e']; show dataHeight b ≤ _
+    unfold dataHeight
+    cases hm : b.data.metadata with
+    | none => simp
+    | some m =>
+      have h1 := (hl'.metaOK m hm).2.1
+      have h2 := hl'.height
+      simp only [Option.map_some, Option.getD_some]
+      omega
 
 end Submit
